@@ -117,3 +117,66 @@ upd_harness! {
         kani::cover!(s32 == 0 && sc.in_startup, "consensus with nothing to correct still ends startup");
     }
 }
+
+// ---------------------------------------------------------------- native scenario tests
+// The harnesses above decide the control logic under environment models of select()/combine();
+// a counterexample of theirs cannot be replayed natively through Kani's playback (stubs are inert
+// in a native build). These ordinary tests drive the REAL select/combine/update_clock through
+// the public controller API with one concrete scenario per claim; the driver runs them natively
+// (release and dev) when the corresponding harness fails, and reports a violation only if the
+// scenario reproduces it on the real code.
+#[cfg(test)]
+mod native {
+    use super::*;
+    use ntp_proto::verif::algorithm::InternalTimeSyncController;
+    use ntp_proto::{KalmanClockController, NtpDuration, SourceConfig, SynchronizationConfig};
+
+    fn controller_one_source(in_startup: bool, offset: f64, leap: NtpLeapIndicator) -> (ntp_proto::KalmanClockController<RecClock>, bool) {
+        let sc = SynchronizationConfig { minimum_agreeing_sources: 1, ..SynchronizationConfig::default() };
+        let mut c = kh::controller_from_raw(RecClock, sc, AlgorithmConfig::default(), 0.0, ntp_proto::TimeSnapshot::default(), 0.0, in_startup);
+        let id = ntp_proto::verif::source::clock_id(5);
+        let _ctl = c.add_source(id, SourceConfig::default());
+        c.source_update(id, true);
+        let snap = kh::snapshot_from_raw(
+            5,
+            [offset, 0.0],
+            [[1e-8, 0.0], [0.0, 1e-12]],
+            tt::ts_from_raw(1 << 40),
+            1e-8,
+            0.001,
+            None,
+            NtpDuration::ZERO,
+            NtpDuration::ZERO,
+            leap,
+            tt::ts_from_raw(1 << 40),
+        );
+        let upd = c.source_message(id, kh::source_message_from_snapshot(snap));
+        let consensus = upd.used_sources.is_some();
+        (c, consensus)
+    }
+
+    #[test]
+    fn native_consensus_leaves_startup() {
+        // one usable source, leap status unknown (no leap majority), small offset
+        let (c, consensus) = controller_one_source(true, 0.0, NtpLeapIndicator::Unknown);
+        assert!(consensus, "scenario reaches a consensus");
+        assert!(!kh::controller_in_startup(&c), "after a successful consensus the controller has left startup");
+        // with a leap majority as well
+        let (c, consensus) = controller_one_source(true, 0.0, NtpLeapIndicator::NoWarning);
+        assert!(consensus, "scenario reaches a consensus");
+        assert!(!kh::controller_in_startup(&c), "after a successful consensus the controller has left startup");
+    }
+
+    #[test]
+    fn native_leap_applied_exactly() {
+        unsafe {
+            STATUS_N = 0;
+        }
+        let (c, consensus) = controller_one_source(false, 0.0, NtpLeapIndicator::Leap61);
+        assert!(consensus);
+        unsafe {
+            assert!(STATUS_N == 1 && STATUS_L[0] == leap_code(NtpLeapIndicator::Leap61), "voted leap indicator handed to the kernel");
+        }
+        assert!(leap_code(kh::controller_timedata(&c).leap_indicator) == leap_code(NtpLeapIndicator::Leap61));
+    }
+}
